@@ -17,6 +17,8 @@ for pid in pids:
     err = None
     try:
         mod.run(chk)
+        from sa import shared
+        shared.run_shared(pid, chk, repo, mod)
     except AnalysisError as e:
         err = str(e)
     known = load_known(pid)
